@@ -719,6 +719,21 @@ func genIlCase(t *rapid.T) ilCase {
 				if err != nil {
 					continue
 				}
+				if rapid.IntRange(0, 2).Draw(t, "truncatedfen") == 0 {
+					// a position line whose FEN has lost fields (0-5 of its 6 left), with or without a
+					// move list behind it: whatever the driver makes of it, it goes on or shuts down
+					f := strings.Fields(bg.States[0].FEN())
+					k := rapid.IntRange(0, 5).Draw(t, "fenfields")
+					line := strings.TrimSpace("position fen " + strings.Join(f[:min(k, len(f))], " "))
+					if rapid.Bool().Draw(t, "withmoves") {
+						line += " moves"
+						if ms := bg.States[0].Pos.Legal(); len(ms) > 0 {
+							line += " " + ms[rapid.IntRange(0, len(ms)-1).Draw(t, "firstmove")].String()
+						}
+					}
+					c.Actions = append(c.Actions, ilAction{Kind: "badposition", Line: line, Note: fmt.Sprintf("fen-with-%d-fields", k)})
+					return c
+				}
 				note, bad := "not-a-move", rapid.SampledFrom([]string{"zzzz", "e2e9", "", "e2", "e7e8k", "0000"}).Draw(t, "garbage")
 				legal := map[string]bool{}
 				for _, m := range bg.Cur().Pos.Legal() {
